@@ -205,6 +205,39 @@ def mps_equiv(n, d, kind):
     return fn
 
 
+def adapter_phase_equivariance(n_samples, n_int):
+    """the per-step phases handed to both backends follow a global phase offset / a phase negation of the
+    Pulser samples exactly (PCHIP is affine-equivariant), for phases of any sign; amplitudes and detunings
+    do not move.  Without this the Hamiltonian-level equivalences below would be fed different drives."""
+    from harness.c22 import FakeSamples, target_grid
+
+    def fn(env):
+        T = env.torch
+        pa = env.mod("emu_base.pulser_adapter")
+        ts = target_grid(env, n_samples, n_int)
+        amp = [env.real(f"amp{k}", lo=0.0) for k in range(n_samples)]
+        det = [env.real(f"det{k}") for k in range(n_samples)]
+        pha = [env.real(f"pha{k}") for k in range(n_samples)]
+        c = env.real("c")  # any sign: offsets and negation produce negative phases
+
+        def run(phases):
+            data = {"q0": {"amp": T.tensor(amp, dtype=T.float64), "det": T.tensor(det, dtype=T.float64), "phase": T.tensor(phases, dtype=T.float64)}}
+            return pa._extract_omega_delta_phi(FakeSamples({"ground-rydberg": data}, float(n_samples)), ("q0",), ts)
+
+        o0, d0, p0 = run(pha)
+        o1, d1, p1 = run([x + c for x in pha])
+        shift = c if not env.mutant("offset_lost") else 0.0
+        env.check_eq(p1, p0 + shift, f"phases of the offset sequence = phases + c at every step ({n_samples} samples, {n_int} steps)")
+        env.check_eq(o1, o0, "amplitudes do not depend on the phase offset")
+        env.check_eq(d1, d0, "detunings do not depend on the phase offset")
+        o2, d2, p2 = run([-x for x in pha])
+        env.check_eq(p2, -1.0 * p0, "phases of the phase-negated sequence = -phases at every step")
+        env.check_eq(o2, o0, "amplitudes do not depend on the phase negation")
+
+    return fn
+
+
+
 META = {
     "explanation": (
         "Both Hamiltonian implementations (emu-sv's matrix-free RydbergHamiltonian on a symbolic vector, emu-mps' "
@@ -213,7 +246,9 @@ META = {
         "cos c + i sin c. z3 decides entry-wise: H(phi+c) R_c = R_c H(phi) (a unitary equivalence), R_c n_i R_c^dag = n_i "
         "and R_c n_i n_j R_c^dag = n_i n_j, R_c diagonal and unitary (hence populations and n-correlations from any "
         "computational-basis initial state coincide: U'(t) = R U(t) R^dag and R|b> = phase |b>), H(-phi) = conj(H(phi)) "
-        "(anti-unitary equivalence), and the invariance of the energy expectation under both maps."
+        "(anti-unitary equivalence), and the invariance of the energy expectation under both maps. The drives both backends "
+        "receive follow the transformation exactly: _extract_omega_delta_phi on symbolic samples returns phases + c for samples "
+        "+ c and -phases for negated samples (any sign), with amplitudes and detunings unchanged."
     ),
     "outside": [
         "rigid motions of the register and serialisation round-trips (performed by Pulser before the repository sees "
@@ -252,6 +287,19 @@ def cases(tier):
                 bounds={"n_qubits": n},
                 canaries=["no_negation"],
                 weight=4**n,
+            )
+        )
+    for ns, ni in ([(3, 2)] if quick else [(3, 2), (4, 3), (2, 2)]):
+        out.append(
+            Case(
+                f"adapter_phase_equivariance_T{ns}_K{ni}",
+                adapter_phase_equivariance(ns, ni),
+                covers=[("emu_base/pulser_adapter.py", "_extract_omega_delta_phi"), ("emu_base/math/pchip_torch.py", "PCHIP1D.__init__"), ("emu_base/math/pchip_torch.py", "PCHIP1D.__call__")],
+                bounds={"samples": ns, "steps": ni, "phases": "symbolic, any sign", "offset": "symbolic c, any sign"},
+                canaries=["offset_lost"],
+                weight=3**ns * ni,
+                timeout_ms=60000,
+                deadline_s=1200,
             )
         )
     for n, d in ([(2, 2), (3, 2), (2, 3)] if quick else [(1, 2), (2, 2), (3, 2), (2, 3), (3, 3)]):
